@@ -54,11 +54,43 @@
 //     those values; the SDK re-applies limits / nested de-duplication in place
 //     when the values are offered again. All records of a case have the same
 //     limits, so this is idempotent; nothing beyond the final state is asserted.
+//   - size is a dimension ("for ANY sequence of calls ... under ANY limits"):
+//     sub-check bulk_calls draws the number of attributes of a call, the count
+//     limit and the length limit from log scales (up to ~16000 / ~16000 / 511)
+//     and surrounds the large calls with small calls on the same and on other
+//     records whose keys come from the same key space. No new clause: the same
+//     model decides. What a large call leaves behind in the process (the SDK
+//     keeps its de-duplication scratch maps in a sync.Pool) must not change
+//     what any record - the same or another - does with the calls that
+//     follow; that IS "holds each key once with the value supplied last" and
+//     "count + dropped = offered" for those later calls.
+//   - a panic raised by SetAttributes / AddAttributes / Emit is reported as
+//     Kind "panic" with the step that raised it (a record that cannot take a
+//     call holds nothing the statement promises).
+//   - "configured" limits (emit path): the limits reach the provider through
+//     WithAttributeCountLimit / WithAttributeValueLengthLimit, through
+//     OTEL_LOGRECORD_ATTRIBUTE_COUNT_LIMIT / ..._VALUE_LENGTH_LIMIT (plain
+//     decimal integers; "If the ... environment variable is set, and this
+//     option is not passed, that variable value will be used"), through both
+//     (then the option is the configured value) or not at all ("By default ...
+//     128 will be used" / "no limit (-1) will be used"). Invalid environment
+//     values are not generated (nothing is "configured" then).
+//   - process-wide state a case touches is put back: the two environment
+//     variables right after the provider was built, the collector settings
+//     (held back while a case with a bulk call runs so that search,
+//     minimisation and replay agree on what the SDK's pools hold) at the end
+//     of the case, and the pools are emptied (two collections) after a case
+//     that made a call of >= 100 attributes or found a violation.
 package c17
 
 import (
 	"context"
 	"fmt"
+	"math"
+	"os"
+	"runtime"
+	"runtime/debug"
+	"strconv"
 	"testing"
 
 	"go.opentelemetry.io/otel/log"
@@ -66,6 +98,7 @@ import (
 	"go.opentelemetry.io/otel/sdk/log/logtest"
 	"go.opentelemetry.io/otel/sdk/resource"
 	"go.opentelemetry.io/otel/verif/internal/vk"
+	"pgregory.net/rapid"
 )
 
 // Op is one step of the program.
@@ -73,6 +106,8 @@ type Op struct {
 	Op  string `json:"op"`  // set | add | clone | new (a second, unrelated record with the same limits)
 	Rec int    `json:"rec"` // target record (modulo the number of records alive)
 	KVs []KVD  `json:"kvs,omitempty"`
+	// Bulk: a long argument list in compact form, appended to KVs (bulk_test.go).
+	Bulk *Bulk `json:"bulk,omitempty"`
 	// Arg says which caller-owned slice carries the arguments of a set/add:
 	//   ""        a freshly built slice of exactly the right size
 	//   "spare"   a fresh slice with Spare elements of spare capacity
@@ -91,8 +126,9 @@ type Op struct {
 type Case struct {
 	CountLimit int    `json:"count_limit"`
 	LenLimit   int    `json:"len_limit"`
-	Path       string `json:"path"`           // direct | emit
-	Emit       []KVD  `json:"emit,omitempty"` // attributes of the emitted API record (emit path)
+	Path       string `json:"path"`                // direct | emit
+	Emit       []KVD  `json:"emit,omitempty"`      // attributes of the emitted API record (emit path)
+	EmitBulk   *Bulk  `json:"emit_bulk,omitempty"` // ... followed by the expansion of this
 	// EmitSpare / EmitScribble: the slice handed to the API record's
 	// AddAttributes has spare capacity / is scribbled over before Emit.
 	EmitSpare    int `json:"emit_spare,omitempty"`
@@ -100,6 +136,17 @@ type Case struct {
 	// EmitTwice: the same API record is emitted a second time after the
 	// first Emit returned (and after the program ran on the first SDK record).
 	EmitTwice bool `json:"emit_twice,omitempty"`
+	// Config says how the limits reach the LoggerProvider (emit path):
+	//   ""                      WithAttributeCountLimit + WithAttributeValueLengthLimit
+	//   "env"                   the two OTEL_LOGRECORD_ATTRIBUTE_* variables, no option
+	//   "env_and_option"        the variables carry EnvCount / EnvLen, the options the
+	//                           limits of the case (documented: the option wins)
+	//   "count_env_len_option"  / "count_option_len_env": one of each
+	//   "default"               nothing is configured (documented: 128 / no limit;
+	//                           the generator sets the limits of the case to that)
+	Config   string `json:"config,omitempty"`
+	EnvCount int    `json:"env_count,omitempty"`
+	EnvLen   int    `json:"env_len,omitempty"`
 	// Extra unrelated records (same limits) exist from the start, so that
 	// the program can hand one slice to several records right away.
 	Extra int  `json:"extra_records,omitempty"`
@@ -127,7 +174,62 @@ func observe(r *sdklog.Record) obs {
 // fingerprint is the bit-exact, ordered rendering of everything a record
 // returns about its attributes.
 func (o obs) fingerprint() string {
-	return fmt.Sprintf("%s len=%d dropped=%d", renderKVs(o.kvs), o.n, o.drop)
+	if len(o.kvs) <= 64 {
+		return fmt.Sprintf("%s len=%d dropped=%d", renderKVs(o.kvs), o.n, o.drop)
+	}
+	// large records: a digest of the same bit-exact, ordered content.
+	d := digest(14695981039346656037)
+	for _, kv := range o.kvs {
+		d.str(string(kv.K))
+		kv.V.digestTo(&d)
+	}
+	return fmt.Sprintf("{%d attributes starting with %s, digest %016x} len=%d dropped=%d", len(o.kvs), renderKVs(o.kvs[:3]), uint64(d), o.n, o.drop)
+}
+
+// digest is FNV-1a over a self-delimiting encoding of values.
+type digest uint64
+
+func (d *digest) byte(b byte) { *d = (*d ^ digest(b)) * 1099511628211 }
+func (d *digest) u64(x uint64) {
+	for i := 0; i < 8; i++ {
+		d.byte(byte(x >> (8 * i)))
+	}
+}
+
+func (d *digest) str(s string) {
+	d.u64(uint64(len(s)))
+	for i := 0; i < len(s); i++ {
+		d.byte(s[i])
+	}
+}
+
+func (v VD) digestTo(d *digest) {
+	d.str(v.T)
+	switch v.T {
+	case "bool":
+		if v.B {
+			d.byte(1)
+		} else {
+			d.byte(0)
+		}
+	case "int":
+		d.u64(uint64(v.I))
+	case "float":
+		d.u64(math.Float64bits(float64(v.F)))
+	case "str", "bytes":
+		d.str(string(v.S))
+	case "slice":
+		d.u64(uint64(len(v.L)))
+		for _, e := range v.L {
+			e.digestTo(d)
+		}
+	case "map":
+		d.u64(uint64(len(v.M)))
+		for _, e := range v.M {
+			d.str(string(e.K))
+			e.V.digestTo(d)
+		}
+	}
 }
 
 // fromKVs copies what a caller-owned slice holds right now into data.
@@ -181,6 +283,15 @@ type hostileFacts struct {
 	editedAfterFork                       map[int]bool
 	setAfterAdd, sawAdd                   bool
 	emitTwice, emitScribbled, finalSweeps bool
+	// sizes
+	maxCall              int  // most arguments in one call
+	maxCallDistinct      int  // most distinct keys in one call
+	bulkDup              bool // a bulk call repeated keys
+	smallAfterBig        bool // a call of <= 12 arguments after one of >= 100 ...
+	smallAfterBigOther   bool // ... on a record other than the one that got the big call
+	smallAfterBigOverlap bool // ... and it offered a key that the big call offered as well
+	bigKeys              map[string]bool
+	bigTarget            int
 }
 
 type runState struct {
@@ -321,14 +432,15 @@ func (s *runState) lend(op Op, t int) []log.KeyValue {
 				h.setOverflowThenReuse = true
 			}
 		}
-		arg = append(s.scratch[:0], toKVs(op.KVs)...)
+		arg = append(s.scratch[:0], toKVs(op.args())...)
+		s.scratch = arg[:0] // the caller keeps the buffer it grew
 		h.scratch = true
 		wasScratch = true
 	case op.Arg == "spare":
-		arg = withSpare(op.KVs, op.Spare)
+		arg = withSpare(op.args(), op.Spare)
 		h.spare = true
 	default:
-		arg = toKVs(op.KVs)
+		arg = toKVs(op.args())
 	}
 	s.lastWasScratch = wasScratch
 	return arg
@@ -370,15 +482,20 @@ func (s *runState) applyOps() {
 			// caller left in it).
 			offered := fromKVs(arg)
 			step = fmt.Sprintf("op %d %s(rec %d, %d kvs, arg %q, scribble %d)", i, op.Op, t, len(offered), op.Arg, op.Scribble)
+			s.sizeFacts(op, t, offered)
 			if op.Op == "set" {
 				if h.sawAdd {
 					h.setAfterAdd = true
 				}
-				s.recs[t].SetAttributes(arg...)
+				if !s.call(step, func() { s.recs[t].SetAttributes(arg...) }) {
+					return
+				}
 				s.models[t].set(offered, &s.of)
 			} else {
 				h.sawAdd = true
-				s.recs[t].AddAttributes(arg...)
+				if !s.call(step, func() { s.recs[t].AddAttributes(arg...) }) {
+					return
+				}
 				s.models[t].add(offered, &s.of)
 			}
 			setOverflow := op.Op == "set" && len(s.models[t].keys) > 5
@@ -420,6 +537,54 @@ func (s *runState) applyOps() {
 	}
 }
 
+// call runs one call into the library; a panic is a violation of its own
+// (reported with the step that caused it) and ends the case.
+func (s *runState) call(step string, f func()) (ok bool) {
+	defer func() {
+		if p := recover(); p != nil {
+			s.bad("panic", "%s: panic: %v", step, p)
+			ok = false
+		}
+	}()
+	f()
+	return true
+}
+
+// sizeFacts keeps the class labels about call sizes.
+func (s *runState) sizeFacts(op Op, t int, offered []KVD) {
+	h := &s.hf
+	h.maxCall = max(h.maxCall, len(offered))
+	if op.Bulk.hasDuplicates() {
+		h.bulkDup = true
+	}
+	if len(offered) <= 12 && h.bigKeys != nil {
+		h.smallAfterBig = true
+		if t != h.bigTarget {
+			h.smallAfterBigOther = true
+		}
+		for _, kv := range offered {
+			if h.bigKeys[string(kv.K)] {
+				h.smallAfterBigOverlap = true
+			}
+		}
+	}
+	if len(offered) >= 100 {
+		keys := make(map[string]bool, len(offered))
+		for _, kv := range offered {
+			keys[string(kv.K)] = true
+		}
+		h.maxCallDistinct = max(h.maxCallDistinct, len(keys))
+		if h.bigKeys == nil {
+			h.bigKeys = keys
+		} else {
+			for k := range keys {
+				h.bigKeys[k] = true
+			}
+		}
+		h.bigTarget = t
+	}
+}
+
 // finalSweep: at the end of the case the caller reuses all of its memory; no
 // record may notice.
 func (s *runState) finalSweep() {
@@ -434,6 +599,64 @@ func (s *runState) finalSweep() {
 	}
 	s.hf.finalSweeps = true
 	s.checkAll("the caller scribbled over every slice it ever passed", -1)
+}
+
+const (
+	envCount = "OTEL_LOGRECORD_ATTRIBUTE_COUNT_LIMIT"
+	envLen   = "OTEL_LOGRECORD_ATTRIBUTE_VALUE_LENGTH_LIMIT"
+)
+
+// limitConfig turns Case.Config into provider options plus environment; the
+// returned function puts the environment back.
+func limitConfig(c Case) ([]sdklog.LoggerProviderOption, func()) {
+	var opts []sdklog.LoggerProviderOption
+	env := map[string]string{} // variables to set; all others of the two are unset
+	cnt, ln := strconv.Itoa(c.CountLimit), strconv.Itoa(c.LenLimit)
+	optCount := func() { opts = append(opts, sdklog.WithAttributeCountLimit(c.CountLimit)) }
+	optLen := func() { opts = append(opts, sdklog.WithAttributeValueLengthLimit(c.LenLimit)) }
+	switch c.Config {
+	case "":
+		optCount()
+		optLen()
+	case "env":
+		env[envCount], env[envLen] = cnt, ln
+	case "env_and_option":
+		env[envCount], env[envLen] = strconv.Itoa(c.EnvCount), strconv.Itoa(c.EnvLen)
+		optLen()
+		optCount()
+	case "count_env_len_option":
+		env[envCount] = cnt
+		optLen()
+	case "count_option_len_env":
+		env[envLen] = ln
+		optCount()
+	case "default":
+	default:
+		panic("c17: unknown config " + c.Config)
+	}
+	type saved struct {
+		v  string
+		ok bool
+	}
+	old := map[string]saved{}
+	for _, k := range []string{envCount, envLen} {
+		v, ok := os.LookupEnv(k)
+		old[k] = saved{v, ok}
+		if nv, set := env[k]; set {
+			_ = os.Setenv(k, nv)
+		} else {
+			_ = os.Unsetenv(k)
+		}
+	}
+	return opts, func() {
+		for k, o := range old {
+			if o.ok {
+				_ = os.Setenv(k, o.v)
+			} else {
+				_ = os.Unsetenv(k)
+			}
+		}
+	}
 }
 
 type editProc struct{ fn func(*sdklog.Record) }
@@ -455,6 +678,31 @@ func (e *recExporter) ForceFlush(context.Context) error { return nil }
 
 func run(c Case) ([]vk.Violation, vk.Info) {
 	s := &runState{c: c, seen: map[string]bool{}}
+	// No case may leave process-wide state (the SDK's pooled scratch maps)
+	// behind that a later case - or the minimisation of this one - would see.
+	// A case with a bulk call allocates enough to start several collections
+	// between two of its steps, and a collection empties the SDK's pools: for
+	// the outcome to be a function of the case (search, minimisation and
+	// replay in a fresh process must agree) the collector is held back while
+	// such a case runs (soft memory limit as the safety net) and the pools are
+	// emptied when a case that made a call of 100 or more attributes ends.
+	if c.hasBulk() {
+		gc := debug.SetGCPercent(-1)
+		lim := debug.SetMemoryLimit(3 << 30)
+		defer func() {
+			debug.SetMemoryLimit(lim)
+			debug.SetGCPercent(gc)
+		}()
+	}
+	defer func() {
+		p := recover()
+		if p != nil || s.fatal || s.hf.maxCall >= 100 {
+			flushPools()
+		}
+		if p != nil {
+			panic(p)
+		}
+	}()
 	switch c.Path {
 	case "direct":
 		r := logtest.RecordFactory{AttributeCountLimit: c.CountLimit, AttributeValueLengthLimit: c.LenLimit}.NewRecord()
@@ -464,6 +712,8 @@ func run(c Case) ([]vk.Violation, vk.Info) {
 		s.applyOps()
 		s.finalSweep()
 	case "emit":
+		emitted := c.emitArgs()
+		s.hf.maxCall = len(emitted)
 		calls := 0
 		var second []KVD // what the API record holds when it is emitted again
 		var m2 *model
@@ -472,7 +722,7 @@ func run(c Case) ([]vk.Violation, vk.Info) {
 			switch calls {
 			case 1:
 				m := newModel(c.CountLimit)
-				for _, kv := range c.Emit {
+				for _, kv := range emitted {
 					m.add([]KVD{kv}, &s.of) // the logger adds them one by one
 				}
 				s.recs = []*sdklog.Record{r}
@@ -490,16 +740,17 @@ func run(c Case) ([]vk.Violation, vk.Info) {
 			}
 		}}
 		exp := &recExporter{}
-		p := sdklog.NewLoggerProvider(
+		opts, restore := limitConfig(c)
+		opts = append(opts,
 			sdklog.WithResource(resource.Empty()),
-			sdklog.WithAttributeCountLimit(c.CountLimit),
-			sdklog.WithAttributeValueLengthLimit(c.LenLimit),
 			sdklog.WithProcessor(proc),
 			sdklog.WithProcessor(sdklog.NewSimpleProcessor(exp)),
 		)
+		p := sdklog.NewLoggerProvider(opts...)
+		restore() // the provider is documented to read its configuration when it is built
 		var rec log.Record
 		rec.SetBody(log.StringValue("c17"))
-		arg := withSpare(c.Emit, c.EmitSpare)
+		arg := withSpare(emitted, c.EmitSpare)
 		rec.AddAttributes(arg...)
 		s.lent = append(s.lent, arg)
 		if c.EmitScribble > 0 {
@@ -550,8 +801,18 @@ func run(c Case) ([]vk.Violation, vk.Info) {
 	overwrite := f.overwriteInline || f.overwriteOverflow
 	info.NonTrivial = overwrite || f.limitMidCall || v.nestedTruncated
 	info.Class("path=" + c.Path)
-	info.Class(fmt.Sprintf("count_limit=%d", c.CountLimit))
-	info.Class(fmt.Sprintf("len_limit=%d", c.LenLimit))
+	if c.Path == "emit" {
+		cfg := c.Config
+		if cfg == "" {
+			cfg = "options"
+		}
+		info.Class("limits_configured_by=" + cfg)
+		info.ClassIf(c.Config == "default" && f.droppedByLimit > 0, "default_count_limit_128_reached")
+	}
+	info.ClassIf(c.LenLimit > 8 && (v.topTruncated || v.nestedTruncated), "string_truncated_under_len_limit>8")
+	info.ClassIf(c.LenLimit > 8 && v.invalidTruncated, "invalid_utf8_string_truncated_under_len_limit>8")
+	info.Class(limitLabel("count_limit", c.CountLimit, countLimits))
+	info.Class(limitLabel("len_limit", c.LenLimit, lenLimits))
 	info.ClassIf(f.overwriteInline, "later_call_overwrites_inline_key")
 	info.ClassIf(f.overwriteOverflow, "later_call_overwrites_overflow_key")
 	info.ClassIf(f.dupWithinCall, "duplicate_key_within_call")
@@ -598,7 +859,43 @@ func run(c Case) ([]vk.Violation, vk.Info) {
 	info.ClassIf(h.setKeptOverflow && h.finalSweeps, "hostile:Set_keeping_>5_then_final_sweep")
 	info.ClassIf(h.emitScribbled, "hostile:api_record_arg_scribbled_before_emit")
 	info.ClassIf(h.emitTwice, "same_api_record_emitted_twice")
+	// sizes
+	switch {
+	case h.maxCall >= 10000:
+		info.Class("largest_call>=10000_kvs")
+	case h.maxCall >= 1000:
+		info.Class("largest_call_1000-9999_kvs")
+	case h.maxCall >= 100:
+		info.Class("largest_call_100-999_kvs")
+	case h.maxCall > 12:
+		info.Class("largest_call_13-99_kvs")
+	}
+	info.ClassIf(maxHeld >= 1000, "record_holds>=1000")
+	info.ClassIf(maxHeld >= 100 && maxHeld < 1000, "record_holds_100-999")
+	info.ClassIf(h.maxCallDistinct >= 1000, "one_call_offers>=1000_distinct_keys")
+	info.ClassIf(h.bulkDup, "bulk_call_repeats_keys")
+	info.ClassIf(h.smallAfterBig, "small_call_after_call_of>=100")
+	info.ClassIf(h.smallAfterBigOther, "small_call_on_other_record_after_call_of>=100")
+	info.ClassIf(h.smallAfterBigOverlap, "small_call_after_call_of>=100_shares_a_key_with_it")
+	info.ClassIf(c.CountLimit > 7 && c.CountLimit != 128, "count_limit_from_log_scale")
+	info.ClassIf(c.CountLimit > 128 && f.droppedByLimit > 0, "count_limit>128_reached")
+	info.ClassIf(c.LenLimit > 8, "len_limit>8")
 	return s.vs, info
+}
+
+// limitLabel names a limit exactly when it is one of the corner values and by
+// its decade otherwise (limits drawn from a log scale).
+func limitLabel(name string, v int, corners []int) string {
+	for _, c := range corners {
+		if c == v {
+			return fmt.Sprintf("%s=%d", name, v)
+		}
+	}
+	lo := 1
+	for lo*10 <= v {
+		lo *= 10
+	}
+	return fmt.Sprintf("%s=%d..%d(log scale)", name, lo, lo*10-1)
 }
 
 var known = map[string]func(Case, vk.Violation) bool{
@@ -623,7 +920,7 @@ func TestRecordModel(t *testing.T) {
 func TestEmitModel(t *testing.T) {
 	vk.Run(t, vk.Spec[Case]{
 		Property: "C17", Check: "emit_model",
-		Rule: "same limits; an API log.Record carrying 0..12 attributes is emitted through a LoggerProvider configured with the limits (the SDK adds them one by one); the first processor checks the record, applies 0..8 further Set/Add/Clone/new-record steps inside OnEmit with the same hostile caller (checked after every step); a SimpleProcessor + recording exporter registered after it must see the same final record; the slice given to the API record is scribbled before Emit in a fraction of cases; in a third of the cases the same API record is emitted a second time and the exporter's Clone of the first record must not change; " +
+		Rule: "same limits; an API log.Record carrying 0..12 attributes is emitted through a LoggerProvider configured with the limits - by the two options (half of the cases), by the two OTEL_LOGRECORD_ATTRIBUTE_* environment variables, by both with different values (the option wins), one of each, or not at all (defaults 128 / unlimited) - (the SDK adds them one by one); the first processor checks the record, applies 0..8 further Set/Add/Clone/new-record steps inside OnEmit with the same hostile caller (checked after every step); a SimpleProcessor + recording exporter registered after it must see the same final record; the slice given to the API record is scribbled before Emit in a fraction of cases; in a third of the cases the same API record is emitted a second time and the exporter's Clone of the first record must not change; " +
 			"non-trivial = as for record_model",
 		Quick: 30000, Thorough: 300000,
 		Gen: func(t *rapidT) Case { return genCase(t, "emit", false) }, Run: run,
@@ -634,10 +931,30 @@ func TestEmitModel(t *testing.T) {
 func TestStringLimits(t *testing.T) {
 	vk.Run(t, vk.Spec[Case]{
 		Property: "C17", Check: "string_limits",
-		Rule: "length limit in {0,1,3,8} (-1 rarely), count limit mostly unlimited/128; 1..5 steps whose values are strings or slices/maps of strings near the limit (repeated multi-byte runes, literal U+FFFD, invalid bytes at every position, exactly limit / limit+1 characters), first step often a 7-key Set so that later calls overwrite inline and overflow keys; " +
+		Rule: "length limit in {0,1,3,8} (-1 rarely; one case in five log-uniform in 1..511 with strings of limit-1..limit+2 mixed-width characters, optionally with invalid bytes around the cut), count limit mostly unlimited/128; 1..5 steps whose values are strings or slices/maps of strings near the limit (repeated multi-byte runes, literal U+FFFD, invalid bytes at every position, exactly limit / limit+1 characters), first step often a 7-key Set so that later calls overwrite inline and overflow keys; " +
 			"non-trivial = as for record_model",
 		Quick: 40000, Thorough: 400000,
 		Gen: func(t *rapidT) Case { return genCase(t, "direct", true) }, Run: run,
+		Known: known,
+	})
+}
+
+func TestBulkCalls(t *testing.T) {
+	// Every case of this check ends with two forced collections and switches
+	// the collector off and on (see run); with few Ps those stop-the-world
+	// phases stay cheap on a busy machine. The cases are single-goroutine.
+	defer runtime.GOMAXPROCS(runtime.GOMAXPROCS(2))
+	vk.Run(t, vk.Spec[Case]{
+		Property: "C17", Check: "bulk_calls",
+		Rule: "size as a dimension: count limit from the corner set or log-uniform in 1..16383, length limit from the corner set or log-uniform in 1..511; one or two Set/Add calls (3 in 4 cases direct, else also the emitted API record) carry 1..16383 attributes on a log scale (keys k<j> walking an arithmetic progression, optionally wrapping so that keys repeat inside the call; element i carries i), surrounded by 1..11 small calls on the same and on up to three other records whose keys are the low keys of that key space and a few keys anywhere in it; same model, same hostile caller, every record checked after every step; " +
+			"non-trivial = as for record_model",
+		Quick: 1500, Thorough: 20000,
+		Gen: func(t *rapidT) Case {
+			if rapid.IntRange(0, 3).Draw(t, "emit_path") == 0 {
+				return genBulkCase(t, "emit")
+			}
+			return genBulkCase(t, "direct")
+		}, Run: run,
 		Known: known,
 	})
 }
